@@ -187,6 +187,22 @@ func extractSaslPlain(repo, root string) error {
 	b.WriteString("def plainNextCompleted : Bool := " + nextCompleted + "\n")
 	b.WriteString("/-- authentication-relevant calls, in source order -/\n")
 	b.WriteString(strings.Join(lines, "\n") + "\n")
+	// control flow of the two authenticateSASL functions, by symbolic execution over call outcomes
+	for _, x := range []struct{ lean, file, recv, name string }{
+		{"dialerAuthFlow", "dialer.go", "Dialer", "authenticateSASL"},
+		{"transportAuthFlow", "transport.go", "", "authenticateSASL"},
+	} {
+		rows, unhandled, err := authFlowTable(repo, x.file, x.recv, x.name)
+		if err != nil {
+			return err
+		}
+		if len(unhandled) > 0 {
+			fmt.Fprintln(os.Stderr, "saslplain: UNTRANSLATED in", x.name, ":", unhandled)
+			rows = append(rows, fmt.Sprintf("([%q], [%q], %q)", "untranslated", strings.Join(unhandled, "; "), "?"))
+		}
+		b.WriteString("/-- (scenario of call outcomes, calls made in order, value returned) -/\n")
+		b.WriteString("def " + x.lean + " : List (List String × List String × String) := [\n  " + strings.Join(rows, ",\n  ") + "]\n")
+	}
 	b.WriteString("end KV.Gen\n")
 	return os.WriteFile(filepath.Join(root, "lean", "KafkaVerif", "Gen", "SaslPlainFmt.lean"), []byte(b.String()), 0o644)
 }
